@@ -44,7 +44,7 @@ class Check(CheckBase):
 
     def generate(self):
         quick = self.tier == 'quick'
-        n = 64 if quick else 1200
+        n = 64 if quick else 3600
         cases = []
         for i in range(n):
             r = random.Random(f'C05/{self.seed}/{i}')
